@@ -126,3 +126,10 @@ Require Import GM.model.FootnoteI GM.proofs.FootnoteWf.
 Theorem C03_convert_footnote_model_safe_inert : forall c src o, unsafe c = false -> bytes_ok src -> ConvertModelFn c src = Ok o -> Inert o.
 Proof. exact ConvertModelFn_safe_inert. Qed.
 Print Assumptions C03_convert_footnote_model_safe_inert.
+
+(* and with the heading options parser.WithAttribute() / parser.WithAutoHeadingID(), where the
+   source chooses attribute names and values (model/HeadingOptsI.v; all four option sets) *)
+Require Import GM.model.HeadingOpts GM.model.HeadingOptsI GM.proofs.HeadingOptsWf.
+Theorem C03_convert_heading_options_safe_inert : forall hc c src o, unsafe c = false -> bytes_ok src -> ConvertModelH hc c src = Ok o -> Inert o.
+Proof. exact ConvertModelH_safe_inert. Qed.
+Print Assumptions C03_convert_heading_options_safe_inert.
